@@ -26,14 +26,15 @@ VARIABLES written,    \* bytes handed to the sink so far
           done, inTable,
           replies,    \* sequence of replies seen by the client: <<"chunk", bytes, last>> | <<"err">>
           wantMore,   \* client keeps pulling (one extra pull after the end to test "past the end")
-          cancelled   \* the client cancelled (released) the stream
-vars == <<N, Chunk, Depth, FailAt, written, buf, q, blockedMsg, pstate, look, cur, hpc, done, inTable, replies, wantMore, cancelled>>
+          cancelled,  \* the client cancelled (released) the stream
+          cancelIdx   \* number of replies that may still be non-errors when the release happened (those of a `next` already in progress)
+vars == <<N, Chunk, Depth, FailAt, written, buf, q, blockedMsg, pstate, look, cur, hpc, done, inTable, replies, wantMore, cancelled, cancelIdx>>
 params == <<N, Chunk, Depth, FailAt>>
 Seq1(a,b) == [i \in 1..(b-a+1) |-> a+i-1]
 ChunkMsg(c) == [k |-> "chunk", b |-> c]
 EndMsg == [k |-> "end", b |-> <<>>]
 FailMsg == [k |-> "fail", b |-> <<>>]
-Init == /\ N \in Ns /\ Chunk \in Chunks /\ Depth \in Depths /\ FailAt \in 0..(N + 1) /\ cancelled = FALSE
+Init == /\ N \in Ns /\ Chunk \in Chunks /\ Depth \in Depths /\ FailAt \in 0..(N + 1) /\ cancelled = FALSE /\ cancelIdx = 0
         /\ written = 0 /\ buf = <<>> /\ q = <<>> /\ blockedMsg = <<>> /\ pstate = "run"
         /\ look = <<>> /\ cur = <<>> /\ hpc = "idle" /\ done = FALSE /\ inTable = TRUE
         /\ replies = <<>> /\ wantMore = 2
@@ -51,7 +52,7 @@ PWrite(k) == /\ pstate = "run" /\ blockedMsg = <<>> /\ written < N /\ (NoFail \/
                    IF Len(nb) >= Chunk THEN buf' = <<>> /\ TrySend(ChunkMsg(nb))
                    ELSE buf' = nb /\ UNCHANGED <<q, blockedMsg>>
              /\ UNCHANGED <<pstate, look, cur, hpc, done, inTable, replies, wantMore>>
-PUnblock == /\ blockedMsg # <<>> /\ inTable /\ CanEnqueue
+PUnblock == /\ blockedMsg # <<>> /\ (inTable \/ hpc # "idle") /\ CanEnqueue      \* the receiver lives as long as the table entry or a handler in progress holds it
             /\ q' = Append(q, blockedMsg[1]) /\ blockedMsg' = <<>>
             /\ UNCHANGED <<written, buf, pstate, look, cur, hpc, done, inTable, replies, wantMore>>
 PFinish == /\ pstate = "run" /\ blockedMsg = <<>>
@@ -95,14 +96,17 @@ HRecv2 == /\ hpc = "need2" /\ q # <<>>
                   [] m.k = "fail"  -> Reply("err", <<>>, FALSE) /\ UNCHANGED look
           /\ UNCHANGED <<written, buf, blockedMsg, pstate>>
 \* the client releases the stream between two pulls: the session leaves the table
-CCancel == /\ hpc = "idle" /\ inTable /\ ~cancelled /\ wantMore > 0
+\* (from the same connection between two pulls, or from another connection while a `next` is parked on the producer:
+\* that `next` still completes, every later one is an error)
+CCancel == /\ inTable /\ ~cancelled /\ wantMore > 0
            /\ inTable' = FALSE /\ cancelled' = TRUE
+           /\ cancelIdx' = Len(replies) + (IF hpc = "idle" THEN 0 ELSE 1)
            /\ UNCHANGED <<written, buf, q, blockedMsg, pstate, look, cur, hpc, done, replies, wantMore>>
 Core == (\E k \in WriteSizes : PWrite(k)) \/ PUnblock \/ PFinish \/ PTerm \/ CNext \/ HRecv1 \/ HRecv2 \/ HRecvClosed
-Die == PDie /\ UNCHANGED cancelled
-Next == ((Core /\ UNCHANGED cancelled) \/ CCancel \/ Die) /\ UNCHANGED params
-Spec == Init /\ [][Next]_vars /\ WF_vars(Core /\ UNCHANGED cancelled /\ UNCHANGED params)
-SpecNoCancel == Init /\ [][(Core /\ UNCHANGED cancelled) /\ UNCHANGED params]_vars /\ WF_vars(Core /\ UNCHANGED cancelled /\ UNCHANGED params)
+Die == PDie /\ UNCHANGED <<cancelled, cancelIdx>>
+Next == ((Core /\ UNCHANGED <<cancelled, cancelIdx>>) \/ CCancel \/ Die) /\ UNCHANGED params
+Spec == Init /\ [][Next]_vars /\ WF_vars(Core /\ UNCHANGED <<cancelled, cancelIdx>> /\ UNCHANGED params)
+SpecNoCancel == Init /\ [][(Core /\ UNCHANGED <<cancelled, cancelIdx>>) /\ UNCHANGED params]_vars /\ WF_vars(Core /\ UNCHANGED <<cancelled, cancelIdx>> /\ UNCHANGED params)
 \* --- property layer
 RECURSIVE Concat(_)
 Concat(rs) == IF rs = <<>> THEN <<>> ELSE (IF Head(rs)[1] = "chunk" THEN Head(rs)[2] ELSE <<>>) \o Concat(Tail(rs))
@@ -112,7 +116,7 @@ PrefixOk == Delivered = Seq1(1, Len(Delivered))          \* in order, no dup, no
 AtMostOneLast == Cardinality(Lasts) <= 1
 LastIsComplete == \A i \in Lasts : Concat(SubSeq(replies, 1, i)) = Seq1(1, N) /\ NoFail /\ pstate # "dead"
 \* after a release every further pull is an error (never a chunk, never an end marker)
-AfterCancelError == [][(cancelled /\ Len(replies') > Len(replies)) => replies'[Len(replies')][1] = "err"]_vars
+AfterCancelError == cancelled => \A i \in 1..Len(replies) : i > cancelIdx => replies[i][1] = "err"
 NothingAfterEnd == \A i \in 1..Len(replies) : (\E j \in 1..(i-1) : replies[j][3] \/ replies[j][1] = "err") => replies[i][1] = "err"
 FailNeverLast == (~NoFail \/ pstate = "dead") => Lasts = {}
 EmptyIsSingle == (N = 0 /\ NoFail /\ replies # <<>> /\ ~cancelled /\ pstate # "dead") => replies[1] = <<"chunk", <<>>, TRUE>>
